@@ -152,18 +152,18 @@ def make_cases(rng, tier, budget):
         cases.append({"spec": spec, "meta": meta, "points": [{k: str(v) for k, v in p.items()} for p in pts],
                       "backend": "cython" if i < budget["cython"] else "lambda", "malformed": None,
                       "probe": probe_for(r, spec, meta, pts)})
-    wide = []
-    for i in range(budget.get("wide", 0)):
-        wide.append(wide_case(random.Random(rng.getrandbits(64)), i))
-    # the wide cases are spread over the run (the large ones are the slow ones)
-    step = max(1, len(cases) // max(1, len(wide)))
-    for k, c in enumerate(wide):
-        cases.insert(min(len(cases), k * (step + 1)), c)
     for i in range(budget["malformed"]):
         r = random.Random(rng.getrandbits(64))
         spec, meta = gen.gen_model(r, min_events=1)
         spec2, kind = malform(r, spec, meta)
         cases.append({"spec": spec2, "meta": meta, "points": [], "backend": "lambda", "malformed": kind})
+    # the wide cases are drawn AFTER the classic ones (whose random stream is what it was) and spread over the run
+    wide = []
+    for i in range(budget.get("wide", 0)):
+        wide.append(wide_case(random.Random(rng.getrandbits(64)), i))
+    step = max(1, len(cases) // max(1, len(wide)))
+    for k, c in enumerate(wide):
+        cases.insert(min(len(cases), k * (step + 1)), c)
     return cases
 
 
